@@ -106,15 +106,19 @@ Fixpoint copy_elems (ss : list val) (ps : list (option val)) (n : N) {struct ss}
       end
   end.
 
-(* for k, v := range src { [if v == nil { dst[k] = nil }]; dst[k] <- copy v } *)
+(* for k, v := range src { [if v == nil { dst[k] = nil }]; dst[k] <- copy v }
+   [loc]: the value type is an array that is not assignable; an array inside a map is not
+   addressable, so the emitted code fills a zeroed local `var dst_value [n]T` and then stores
+   it: dst[k] = dst_value  (the prior entry plays no role). *)
 Variable nul : bool.
+Variable loc : bool.
 Fixpoint copy_entries (kvs : list (val * val)) (m : list (val * val)) (n : N) {struct kvs}
   : res (list (val * val) * N) :=
   match kvs with
   | [] => Ok (m, n)
   | kv :: kvs' =>
       let m1 := if (nul && is_nilv (snd kv))%bool then map_set (fst kv) (snd kv) m else m in
-      rdo r1 <- f (snd kv) (map_get (fst kv) m1) n;
+      rdo r1 <- f (snd kv) (if loc then None else map_get (fst kv) m1) n;
       copy_entries kvs' (map_set (fst kv) (fst r1) m1) (snd r1)
   end.
 End Loops.
@@ -133,6 +137,14 @@ Fixpoint copy_fields (fs : list (bool * ty)) (ss : list val) (ps : list (option 
   | _, _, _ => Stuck
   end.
 End Fields.
+
+(* genStatement, case *types.Map: is the value type an array that has to be copied element-wise? *)
+Definition local_value (e : tenv) (vt : ty) : bool :=
+  (negb (can_copy vt) &&
+   match resolve e vt with
+   | Some r => match r_node r with TAr _ _ => true | _ => false end
+   | None => false
+   end)%bool.
 
 (* genStatement, case *types.Pointer: body of deriveDeepCopy(dst, src *rt) for non-nil
    arguments; [sv] = *src, [p] = prior *dst; the result is the new *dst.
@@ -191,7 +203,7 @@ Fixpoint dcf (e : tenv) (t : ty) (s : val) (p : option val) (n : N) {struct s} :
              emitted code does not compile (C01's subject) *)
           if negb (can_copy kt) then Unsup else
           (* dst = make(map, len(src)); deriveDeepCopy(dst, src) *)
-          rdo r1 <- copy_entries (fun a q m => dcf e' vt a q m) (nullable vt) kvs [] (N.succ n);
+          rdo r1 <- copy_entries (fun a q m => dcf e' vt a q m) (nullable vt) (local_value e' vt) kvs [] (N.succ n);
           Ok (VMap n (fst r1), snd r1)
       | TSt fs, VSt svs =>
           (* field := new(T); deriveDeepCopy(field, &src); dst = *field *)
@@ -254,18 +266,38 @@ Definition deepcopy_top (e : tenv) (t : ty) (dst src : val) (n : N) : res (val *
           end
       | TM kt vt =>
           if negb (can_copy kt) then Unsup else
-          match src, dst with
-          | VNilM, (VNilM | VMap _ _) => Ok (dst, n)
-          | VMap _ [], VNilM => Ok (dst, n)
-          | VMap _ (_ :: _), VNilM => Pan                    (* assignment to entry in nil map *)
-          | VMap _ kvs, VMap ld dm =>
-              rdo r1 <- copy_entries (fun a q m => dcf e' vt a q m) (nullable vt) kvs dm n;
-              Ok (VMap ld (fst r1), snd r1)
-          | _, _ => Stuck
+          match src with
+          | VNilM => match dst with VNilM | VMap _ _ => Ok (dst, n) | _ => Stuck end
+          | VMap _ kvs =>
+              match dst with
+              | VMap ld dm =>
+                  rdo r1 <- copy_entries (fun a q m => dcf e' vt a q m) (nullable vt) (local_value e' vt) kvs dm n;
+                  Ok (VMap ld (fst r1), snd r1)
+              | VNilM =>
+                  match kvs with
+                  | [] => Ok (dst, n)
+                  | _ :: _ => Pan                           (* assignment to entry in nil map *)
+                  end
+              | _ => Stuck
+              end
+          | _ => Stuck
           end
       | TSt _ => Unsup                          (* "unsupported deepcopy underlying type" *)
       | _ => Stuck                              (* arrays by value: not a form of the property *)
       end
+  end.
+
+(* the destinations the property speaks about: a non-nil pointer (from a non-nil source), a
+   slice of equal length, an empty map.  The reference itself is passed by value, so whether it
+   is nil is the caller's choice and has to agree with the source. *)
+Definition top_guard (src dst : val) : bool :=
+  match src, dst with
+  | VPtr _ _, VPtr _ _ => true
+  | VNilS, VNilS => true
+  | VSl _ a _, VSl _ b _ => Nat.eqb (length a) (length b)
+  | VNilM, VNilM => true
+  | VMap _ _, VMap _ [] => true
+  | _, _ => false
   end.
 
 (* plugin/clone genFuncFor *)
@@ -290,7 +322,7 @@ Definition clone_model (e : tenv) (t : ty) (src : val) (n : N) : res (val * N) :
       | TM _ _, VNilM => Ok (VNilM, n)
       | TM kt vt, VMap _ kvs =>
           if negb (can_copy kt) then Unsup else
-          rdo r1 <- copy_entries (fun a q m => dcf e' vt a q m) (nullable vt) kvs [] (N.succ n);
+          rdo r1 <- copy_entries (fun a q m => dcf e' vt a q m) (nullable vt) (local_value e' vt) kvs [] (N.succ n);
           Ok (VMap n (fst r1), snd r1)
       | (TP _ | TSl _ | TM _ _), _ => Stuck
       | _, _ =>
